@@ -692,6 +692,8 @@ def _choices(api):
     if api == "signed":
         out += [("version", 1), ("version", 2)] * 3
     for k in LEGACY_KEYS:
+        if api == "signed" and k == "version":
+            continue  # `version` is set_signed_cookie's own parameter (the signing format), not a cookie attribute kwarg
         out += [("legacy", (k, v)) for v in LEGACY_VALUES]
         if k.lower() in FLAGS:
             out += [("legacy", (k, True)), ("legacy", (k, False))] * 3
